@@ -18,6 +18,9 @@ fn compute_facts_hash(facts: &TypedFacts) -> u64 {
 
     for (key, value) in sorted_facts {
         key.hash(&mut hasher);
+        // as_str() alone is lossy across variants (String("1") and Integer(1) print alike):
+        // hash the variant as well so values of different types never share a cache entry
+        std::mem::discriminant(value).hash(&mut hasher);
         value.as_str().hash(&mut hasher);
     }
 
